@@ -504,6 +504,7 @@ class _SCPSource(_SCPHandler):
                             raise _scp_error(SFTPFailure, 'Unexpected EOF')
                     except (OSError, SFTPError) as exc:
                         local_exc = exc
+                        data = blocklen * b'\0'
 
                 await self.send_data(data)
                 offset += len(data)
